@@ -306,7 +306,7 @@ func defString(d *DefSpec) string {
 
 // ---------- generators ----------
 
-var lazyNums = []int{1, 2, 3, 4, 5, 6, 7, 15, 16, 2047, 2048, 18999, 20000, 1 << 26, 1<<29 - 1}
+var lazyNums = []int{1, 2, 3, 4, 5, 6, 7, 15, 16, 31, 32, 63, 64, 65, 127, 128, 2047, 2048, 18999, 20000, 1 << 26, 1<<29 - 1}
 
 type numInfo struct {
 	num      int
@@ -578,7 +578,7 @@ func genLCase(t *rapid.T) *LCase {
 	return c
 }
 
-const ruleC13 = "deterministic sweep: every accessor x 28 values at and just beyond the limits of the 32/64-bit Go types (and their zig-zag / float-bit images) x {single occurrence, two occurrences, packed run with the value in the middle / last, two runs} x {FieldData method, helper function} x {Decode function, Decoder safe, Decoder fast}; then random cases: schema-free message (0..5 distinct numbers incl. 2^26 and 2^29-1, per number a plan {varint, fixed32, fixed64, bytes incl. empty, packed varint/fixed32/fixed64, nested message incl. empty, depth <= 3}, 0..5 occurrences interleaved in random order, unrequested numbers may mix wire types) + definition (random subset of present numbers, absent numbers, nested definitions, negative tags, misfit nested declarations) + 1..6 queries (tag path, accessor out of all 26 + NestedResult(s), route FieldData/FieldData(path)/helper/NestedResults) x {safe, fast} x {Decode function, fresh Decoder, Decoder with WithMaxBufferSize {0,1,2,3,8,1024} that has already decoded, served the same queries for and closed an earlier message built from 1..3 copies of the case's message and an unrelated one}; 1 in 5 inputs mutated (truncate, overwrite, hostile length, random bytes); " +
+const ruleC13 = "deterministic sweeps: (a) every field number 1..130 and 2^k-1, 2^k, 2^k+1 for k = 8..29 x {flat varint, raw access through the negative tag, as a nested message's number, inside a nested message} x {Decode function, Decoder safe, Decoder fast}; (b) every accessor x 28 values at and just beyond the limits of the 32/64-bit Go types (and their zig-zag / float-bit images) x {single occurrence, two occurrences, packed run with the value in the middle / last, two runs} x {FieldData method, helper function} x {Decode function, Decoder safe, Decoder fast}; then random cases: schema-free message (0..5 distinct numbers incl. 2^26 and 2^29-1, per number a plan {varint, fixed32, fixed64, bytes incl. empty, packed varint/fixed32/fixed64, nested message incl. empty, depth <= 3}, 0..5 occurrences interleaved in random order, unrequested numbers may mix wire types) + definition (random subset of present numbers, absent numbers, nested definitions, negative tags, misfit nested declarations) + 1..6 queries (tag path, accessor out of all 26 + NestedResult(s), route FieldData/FieldData(path)/helper/NestedResults) x {safe, fast} x {Decode function, fresh Decoder, Decoder with WithMaxBufferSize {0,1,2,3,8,1024} that has already decoded, served the same queries for and closed an earlier message built from 1..3 copies of the case's message and an unrelated one}; 1 in 5 inputs mutated (truncate, overwrite, hostile length, random bytes); " +
 	"oracle: refwire parse of the same bytes + accessor table (last occurrence, all occurrences with packed runs expanded, sub-message values, raw bytes for negative tags, not-found / not-defined / mismatch / overflow classes via errors.Is/As); malformed: no panic; " +
 	"non-trivial = >= 2 distinct numbers on the wire and >= 1 requested number present, or malformed input; distinct by (bytes, definition, queries)"
 
@@ -638,6 +638,55 @@ func sweepC13(yield func(*LCase)) {
 	}
 }
 
+// sweepTags: every field number 1..130 and the numbers around every power of two up to the largest legal one.
+func sweepTags() []int {
+	var out []int
+	for n := 1; n <= 130; n++ {
+		out = append(out, n)
+	}
+	for k := 8; k <= 29; k++ {
+		for _, n := range []int{1<<k - 1, 1 << k, 1<<k + 1} {
+			if n <= 1<<29-1 && (n < 19000 || n > 19999) {
+				out = append(out, n)
+			}
+		}
+	}
+	return out
+}
+
+// sweepC13Tags enumerates field number x {flat varint, raw access through the negative tag, the number as a
+// nested message's number, the number inside a nested message} x entry/mode.
+func sweepC13Tags(yield func(*LCase)) {
+	for _, n := range sweepTags() {
+		other := 1
+		if n == 1 {
+			other = 2
+		}
+		flat := refwire.AppendVarint(refwire.AppendKey(refwire.AppendVarint(refwire.AppendKey(nil, other, 0), 5), n, 0), uint64(n)+7)
+		inner := refwire.AppendVarint(refwire.AppendKey(nil, n, 0), uint64(n)+9)
+		asParent := refwire.AppendLen(refwire.AppendKey(nil, n, 2), refwire.AppendVarint(refwire.AppendKey(nil, other, 0), 11))
+		asChild := refwire.AppendLen(refwire.AppendKey(nil, other, 2), inner)
+		cases := []LCase{
+			{In: flat, Def: DefSpec{Tags: []DefTag{{Tag: n}, {Tag: other}}}, Queries: []Query{{Path: []int{n}, Acc: "UInt64Value", Route: "helper"}, {Path: []int{n}, Acc: "UInt64Values", Route: "fd"}, {Path: []int{other}, Acc: "UInt64Value", Route: "fd"}}},
+			{In: flat, Def: DefSpec{Tags: []DefTag{{Tag: -n}}}, Queries: []Query{{Path: []int{-n}, Acc: "BytesValue", Route: "fd"}, {Path: []int{n}, Acc: "UInt64Value", Route: "helper"}}},
+			{In: asParent, Def: DefSpec{Tags: []DefTag{{Tag: n, Nested: &DefSpec{Tags: []DefTag{{Tag: other}}}}}}, Queries: []Query{{Path: []int{n, other}, Acc: "UInt64Value", Route: "helper"}, {Path: []int{n, other}, Acc: "UInt64Value", Route: "fdpath"}, {Path: []int{n}, Acc: "NestedResults", Route: "helper"}}},
+			{In: asChild, Def: DefSpec{Tags: []DefTag{{Tag: other, Nested: &DefSpec{Tags: []DefTag{{Tag: n}}}}}}, Queries: []Query{{Path: []int{other, n}, Acc: "UInt64Value", Route: "helper"}, {Path: []int{other, n}, Acc: "UInt64Values", Route: "fdpath"}}},
+		}
+		for i := range cases {
+			for mode := 0; mode < 2; mode++ {
+				for entry := 0; entry < 2; entry++ {
+					if entry == 0 && mode == 1 {
+						continue
+					}
+					c := cases[i]
+					c.Mode, c.Entry = mode, entry
+					yield(&c)
+				}
+			}
+		}
+	}
+}
+
 func TestC13(t *testing.T) {
 	rec := ev.New("C13", ruleC13)
 	defer rec.Write()
@@ -655,6 +704,21 @@ func TestC13(t *testing.T) {
 		}
 		rec.Eval(1)
 		rec.Class("sweep/" + c.Queries[0].Acc)
+		cj, _ := json.Marshal(c)
+		rec.NonTrivial(ev.FP(cj))
+		rec.Check(t, "lcase", c, f)
+	})
+	sweepC13Tags(func(c *LCase) {
+		idx++
+		if idx%shards != shard {
+			return
+		}
+		f, wf := oracleC13(c)
+		if !wf {
+			panic("harness: a sweep case is not well-formed")
+		}
+		rec.Eval(int64(len(c.Queries)))
+		rec.Class("sweep/field-number")
 		cj, _ := json.Marshal(c)
 		rec.NonTrivial(ev.FP(cj))
 		rec.Check(t, "lcase", c, f)
